@@ -310,6 +310,20 @@ theorem vrfFilter_view (vr : Vrf) (b : VPath) (isWd : Bool) (old : Option VPath)
           rw [hv]
           simp [ceExp, hcf, hcof]
 
+/-- `Path.Equal`: the same object, or the same content (in particular marker and communities) -/
+theorem sameAs_cases (a b : VPath) (h : a.sameAs b = true) :
+    a.uid = b.uid ∨ (a.marker = b.marker ∧ a.ecs = b.ecs) := by
+  unfold VPath.sameAs at h
+  rw [Bool.or_eq_true] at h
+  cases h with
+  | inl h => exact Or.inl (by simpa using h)
+  | inr h =>
+    right
+    have h' := of_decide_eq_true h
+    cases a; cases b
+    simp only [VPath.mk.injEq] at h'
+    exact ⟨h'.2.2.2.2.2.2.2.2.1, h'.2.2.2.2.2.2.2.2.2⟩
+
 /-- one destination changes from `oldL` to `newL`, all paths involved having prefix `c` -/
 theorem ce_change_view (vr : Vrf) (oldL newL : List VPath) (v : LView) (c : Nat)
     (hold : ∀ q, q ∈ oldL → q.pfx = c) (hnew : ∀ q, q ∈ newL → q.pfx = c)
@@ -323,16 +337,21 @@ theorem ce_change_view (vr : Vrf) (oldL newL : List VPath) (v : LView) (c : Nat)
   | some b =>
     have hbc : b.pfx = c := hnew b (List.mem_of_head? hn)
     simp only
-    by_cases hu : (uidOf oldL.head? == some b.uid) = true
+    by_cases hu : sameAsHead oldL.head? b = true
     · rw [if_pos hu, lview_apply_nil]
       refine ⟨?_, fun x _ => rfl⟩
       rw [hv]
       cases ho : oldL.head? with
-      | none => rw [ho] at hu; simp [uidOf] at hu
+      | none => rw [ho] at hu; simp [sameAsHead] at hu
       | some o =>
         rw [ho] at hu
-        have he : o.uid = b.uid := by simpa [uidOf] using hu
-        rw [huid o b ho hn he]
+        have hs : b.sameAs o = true := hu
+        cases sameAs_cases b o hs with
+        | inl he => rw [huid o b ho hn he.symm]
+        | inr he =>
+          unfold ceExp
+          simp only
+          rw [he.1, he.2]
     · rw [if_neg hu]
       have h := vrfFilter_view vr b false oldL.head? v c hbc hoh (fun h => by cases h) hv
       exact h
@@ -390,7 +409,8 @@ theorem ce_table_step (t : Tbl) (vr : Vrf) (v : LView) (p : VPath) (wd : Bool)
     | inl hb' => exact h.uid_uniq _ _ o b hom hb' he
     | inr hb' =>
       rw [hb'.1] at he
-      exact absurd he (hf hb'.2 p.nlri o hom)
+      rw [hb'.1]
+      exact (hf hb'.2).1 p.nlri o hom he
   have hc := ce_change_view vr (t.dest p.nlri) (calcDest (t.dest p.nlri) p wd).1 v p.nlri.2
     hold hnew huid hv0
   constructor
